@@ -24,7 +24,7 @@ SCRATCH = "/tmp/seeded-confirm"
 
 def pick_patch(d, cwd):
     """patch.diff as delivered; patch.rebased.diff (same change carried over by hand) when /repo's HEAD has moved under it"""
-    for name in ("patch.diff", "patch.rebased.diff"):
+    for name in ("patch.rebased.diff", "patch.diff"):
         p = os.path.join(d, name)
         if os.path.exists(p) and subprocess.run(["git", "apply", "--check", p], cwd=cwd, capture_output=True).returncode == 0:
             return p
